@@ -108,6 +108,13 @@ impl SubCheck for RoundSub {
             o.unjudged = true;
             o = o.class("unjudged:noop-rounding-with-operand-outside-limits");
         }
+        // relativeTo = -271821-04-19: its midnight lies outside the date-time limits. The specification snapshot the
+        // crate follows creates that date-time first (RangeError for every duration, zero included), the current
+        // text compares the two date-times first (zero duration -> zero). The property text does not decide it.
+        if !(Dt { day: c.r, ns: 0 }).in_range() && c.d.sign() == 0 {
+            o.unjudged = true;
+            o = o.class("unjudged:zero-duration-relative-to-first-day");
+        }
         let date = plain_date(ymd).expect("valid date");
         let d = match duration_from_dur(&c.d) {
             Ok(d) => d,
@@ -167,6 +174,11 @@ impl SubCheck for TotalSub {
         if c.d.sign() < 0 {
             o = o.class("negative");
         }
+        if !(Dt { day: c.r, ns: 0 }).in_range() && c.d.sign() == 0 {
+            // see RoundSub: the two specification snapshots differ for a zero duration relative to the first day
+            o.unjudged = true;
+            o = o.class("unjudged:zero-duration-relative-to-first-day");
+        }
         let date = plain_date(ymd).expect("valid date");
         let d = match duration_from_dur(&c.d) {
             Ok(d) => d,
@@ -174,6 +186,9 @@ impl SubCheck for TotalSub {
         };
         let prov = TableProvider::utc_only();
         let got = d.total_with_provider(unit(c.unit), Some(RelativeTo::PlainDate(date)), &prov);
+        if o.unjudged {
+            return o;
+        }
         match (want, got) {
             (Ok((n, den)), Ok(g)) => {
                 let w = ratio_to_f64(n, den);
